@@ -20,7 +20,6 @@ def run(chk):
     chk.attempt(r05c, chk, tt)
     chk.attempt(r05d, chk, tt)
     chk.attempt(r05e, chk, tt)
-    chk.attempt(r04c, chk, 'R05.f')
     chk.attempt(r05g, chk, tt)
     chk.attempt(r05h, chk)
     chk.attempt(r05i, chk, thorough=chk.tier == 'thorough')
@@ -285,61 +284,6 @@ def r05e(chk, tt, rid='R05.e'):
         chk.ob(rid, TOK, 'Tokenizer._atkeywords', f'{ks!r} -> CSSProductions.{want}', got == want and consts.get(got) == want, f'maps to {text(v)}')
 
 
-def r04c(chk, rid='R04.c'):
-    """End-of-input completion (shared with C04)."""
-    chk.rule(rid, "end-of-input completion: ('EOF', ...) is yielded exactly once, after the main loop, under `fullsheet`; the three completion branches (comment, INVALID->STRING, url( -> URI) are reachable only under `fullsheet`")
-    fn, g, w, f = tokenize_loop(chk)
-    m = chk.repo.mod(TOK)
-    eofs = [n for n in ast.walk(fn) if isinstance(n, ast.Yield) and isinstance(n.value, ast.Tuple) and const(n.value.elts[0]) == 'EOF']
-    chk.ob(rid, TOK, 'Tokenizer.tokenize', 'exactly one yield of EOF', len(eofs) == 1, f'{len(eofs)} found')
-    for e in eofs:
-        st = m.enclosing_stmt(e)
-        par = m.parents[st]
-        ok = isinstance(par, ast.If) and text(par.test) == 'fullsheet' and m.parents[par] is fn and fn.body.index(par) > fn.body.index(w.stmt)
-        chk.ob(rid, TOK, 'Tokenizer.tokenize', 'EOF is yielded at function level after the loop under `if fullsheet`', ok, 'EOF may be missing, repeated or emitted in fragment mode')
-        # nothing after it
-        chk.ob(rid, TOK, 'Tokenizer.tokenize', 'EOF is the last statement', fn.body[-1] is par, 'tokens could follow the end marker')
-    # completion branches
-    # the completed comment must be what the COMMENT production accepts
-    cy = [n for n in ast.walk(fn) if isinstance(n, ast.Yield) and isinstance(n.value, ast.Tuple) and const(n.value.elts[0]) == 'COMMENT' and text(n.value.elts[1]) != 'value']
-    if cy:
-        for y in cy:
-            st = m.enclosing_stmt(y)
-            guarded = False
-            child, p = st, m.parents.get(st)
-            while p is not None and p is not fn:
-                if isinstance(p, ast.If) and child in p.body and 'match' in text(p.test):
-                    # `match` must come from self.commentmatcher
-                    guarded = any(isinstance(a, ast.Assign) and text(a.targets[0]) == 'match' and 'self.commentmatcher(' in text(a.value) for a in ast.walk(fn) if isinstance(a, ast.Assign) and a.lineno < st.lineno and a.lineno > st.lineno - 6)
-                child, p = p, m.parents.get(p)
-            chk.ob(rid, TOK, 'Tokenizer.tokenize', f'`{text(y)[:60]}` is decided by the COMMENT production on the completed text', guarded,
-                   'the unterminated-comment test is an ad-hoc search instead of the token grammar: inputs such as "/*/ x" are misjudged')
-    marks = {
-        'comment completion': lambda s: (isinstance(s, ast.Assign) and text(s.targets[0]) == 'possiblecomment') or (isinstance(s, ast.Expr) and isinstance(s.value, ast.Yield) and isinstance(s.value.value, ast.Tuple) and const(s.value.value.elts[0]) == 'COMMENT' and text(s.value.value.elts[1]) != 'value'),
-        'INVALID -> STRING completion': lambda s: isinstance(s, ast.Assign) and "'STRING'" in text(s.value) and 'found[0]' in text(s.value),
-        'url( -> URI completion': lambda s: isinstance(s, ast.Assign) and text(s.targets[0]) == 'possibleuri',
-    }
-    for label, pred in marks.items():
-        sites = [s for s in ast.walk(fn) if isinstance(s, ast.stmt) and pred(s)]
-        if len(sites) < 1:
-            raise AnalysisError(f'Tokenizer.tokenize: {label} not found')
-        s = sites[0]
-        guarded = False
-        n = m.parents.get(s)
-        child = s
-        while n is not None and n is not fn:
-            if isinstance(n, ast.If) and child in n.body:
-                conj = n.test.values if isinstance(n.test, ast.BoolOp) and isinstance(n.test.op, ast.And) else [n.test]
-                if any(text(c) == 'fullsheet' for c in conj):
-                    guarded = True
-            child = n
-            n = m.parents.get(n)
-        chk.ob(rid, TOK, 'Tokenizer.tokenize', f'{label} only under fullsheet', guarded, 'fragments would be completed as if they were whole sheets')
-
-
-# the lexical macros of CSS 2.1 (appendix G) / css3-syntax, with the deviations
-# cssutils documents at the top of cssproductions.py (a sign is part of num; an
-# identifier may start with up to two hyphens)
 LEXICAL = {
     'nonascii': r'[^\x00-\x7f]',
     'nl': r'\n|\r\n|\r|\f',
